@@ -89,9 +89,15 @@ void harness(void)
     simple = ref_decode(text, VP_LEN, want, &wl);
 
 #ifdef REPLAY
-    if (setjmp(parse.env)) {
-        /* natively the real longjmp lands here */
-        return;
+    {
+        int code = setjmp(parse.env);
+        if (code) {
+            /* natively the real longjmp lands here */
+            VP_ASSERT(code == PARSE_PREMATURE_EOF || code == PARSE_EXPECTED_STRING, "a tokenizer error is one of the documented kinds");
+            VP_COVER(code == PARSE_PREMATURE_EOF, "opt: unterminated quoted string reported");
+            VP_COVER(code == PARSE_EXPECTED_STRING, "opt: non-token character reported");
+            return;
+        }
     }
 #endif
     tok = conf_parse_string(&parse);
